@@ -108,6 +108,7 @@ class Ctx:
         self.covers = set()
         self.ghost = {}
         self.aux = {}
+        self.model_hooks = []
         self.facts_seen = set()
 
     # -- symbols ------------------------------------------------------------------------
@@ -317,6 +318,11 @@ class Ctx:
                 out[name] = "<unconcretised: %s>" % e
         for name, v in self.ghost.items():
             out.setdefault(name, v)
+        for hook in self.model_hooks:
+            try:
+                out.update(hook(model))
+            except Exception as e:  # pragma: no cover
+                out["<model-hook-error>"] = "%s: %s" % (type(e).__name__, e)
         return out
 
 
@@ -383,7 +389,7 @@ class Run:
             except Undecided as e:
                 import traceback
                 tb = traceback.extract_tb(e.__traceback__)
-                where = " <- ".join("%s:%d" % (os.path.basename(f.filename), f.lineno) for f in tb[-4:])
+                where = " <- ".join("%s:%d" % (os.path.basename(f.filename), f.lineno) for f in tb[-9:])
                 self.undecided_reason = "unsupported: %s [%s]" % (e.args[0] if e.args else "", where)
                 outcome = "undecided"
             finally:
@@ -771,7 +777,7 @@ class SInt:
 
 
 def _intlike(o):
-    return isinstance(o, (int, SInt, SBV, SBool))
+    return isinstance(o, (int, SInt, SBV, SBool)) or z3.is_arith(o)
 
 
 def _seq_repeat(seq, n):
